@@ -44,7 +44,7 @@ Pick(l, idxs) == [k \in 1..Len(idxs) |-> At(l, idxs[k])]
    5 / 6: as 1 / 2 but the partner is itself a lazy list *)
 EqPartner(src, a) ==
     LET n == Len(src)
-    IN CASE a \in {1, 5} -> src
+    IN CASE a \in {1, 5, 7, 8} -> src             \* (7, 8: an equal lazy partner that was observed before)
          [] a = 0 -> Append(src, 9)
          [] a \in {2, 6} -> IF n = 0 THEN <<>> ELSE SubSeq(src, 1, n - 1)
          [] a = 3 -> <<>>
